@@ -363,8 +363,13 @@ inline void LidarDriverImpl<T_PointCloud>::internalProcessPacket(std::shared_ptr
   static const uint8_t msop_id[] = {0x55, 0xAA};
   static const uint8_t difop_id[] = {0xA5, 0xFF};
 
+  // a packet shorter than the identifier must not be dispatched on what an earlier packet left in the buffer.
   uint8_t* id = pkt->data();
-  if (memcmp(id, msop_id, sizeof(msop_id)) == 0)
+  if (pkt->dataSize() < sizeof(msop_id))
+  {
+    // neither MSOP nor DIFOP: ignore it
+  }
+  else if (memcmp(id, msop_id, sizeof(msop_id)) == 0)
   {
     bool pkt_to_split = decoder_ptr_->processMsopPkt(pkt->data(), pkt->dataSize());
     runPacketCallBack(pkt->data(), pkt->dataSize(), decoder_ptr_->prevPktTs(), false, pkt_to_split); // msop packet
